@@ -53,7 +53,7 @@ func faultConfigs() []world.WorldSpec {
 	})
 	add(func(s *world.WorldSpec) {
 		s.BAC = true
-		s.PACE = []world.PaceSpec{{Suite: chip.AES256, CAM: true, ParamID: 16}}
+		s.PACE = []world.PaceSpec{{Suite: chip.AES256, CAM: true, ParamID: 16}, {Suite: chip.AES128, ParamID: 16}}
 	})
 	add(func(s *world.WorldSpec) {
 		s.PACE = []world.PaceSpec{{Suite: chip.AES192, ParamID: 15}}
@@ -133,6 +133,8 @@ type baseline struct {
 	files       []string // LDS files (EF.COM, EF.SOD, data groups) the fault-free read returns
 	clear       []string // files of the master file read in the clear (EF.CardAccess, EF.DIR) the fault-free read returns
 	aa, ca      bool     // the fault-free read attempted Active / Chip Authentication (a result or an error is recorded)
+	paceOid     string   // protocol the fault-free read ran PACE with ("" = no PACE)
+	cam         bool     // ... and it produced a PACE-CAM result
 }
 
 var baselineCache = map[int]baseline{}
@@ -158,6 +160,10 @@ func baselineFor(cfg int, spec world.WorldSpec) baseline {
 		ss := r.Doc.Session
 		b.aa = ss.ActiveAuthResult != nil || ss.ActiveAuthErr != nil
 		b.ca = ss.ChipAuthResult != nil || ss.ChipAuthErr != nil
+		if ss.PaceResult != nil && ss.PaceResult.Success {
+			b.paceOid = ss.PaceResult.Oid.String()
+		}
+		b.cam = ss.PaceCamResult != nil && ss.PaceCamResult.Success
 	}
 	for _, ex := range r.Chip.Log {
 		a := ex.Action
@@ -359,7 +365,9 @@ func (E2EFaultEngine) Run(prop string, ci any) *core.Outcome {
 				case "resp_truncate", "resp_garble", "resp_oversize", "resp_lost", "cmd_lost", "do_drop", "do_dup", "do_reorder", "do_nonminimal_len":
 				case "resp_status":
 					for _, f := range c.Faults {
-						if f.Kind == "resp_status" && f.A != 0x9000 {
+						// only a status that says "no such file" (6A82, or 6283 "selected file deactivated") can pass for the
+						// chip's own answer that the file is absent; any other error status is an error
+						if f.Kind == "resp_status" && (f.A == 0x6A82 || f.A == 0x6283) {
 							forgedStatus = true
 						}
 					}
@@ -377,6 +385,16 @@ func (E2EFaultEngine) Run(prop string, ci any) *core.Outcome {
 			// authentication steps run under secure messaging: once the fault-free read attempts one, a completed read
 			// without recorded failure must show its result (Chip Authentication may legitimately be left out when
 			// Active Authentication or PACE-CAM already succeeded)
+			// PACE completed: with the protocol the fault-free read uses (a fault must not silently steer the session
+			// to a weaker advertised protocol), and with its chip-authentication part if the fault-free read has one
+			if s.PaceResult != nil && s.PaceResult.Success && b.paceOid != "" {
+				if got := s.PaceResult.Oid.String(); got != b.paceOid {
+					out.Violate("C11", "protocol-silently-changed", "PACE", "the read completed without an error; PACE ran with %s, the fault-free read of the same chip uses %s (faults %v)", got, b.paceOid, c.Faults)
+				}
+				if b.cam && s.PaceCamResult == nil {
+					out.Violate("C11", "step-silently-skipped", "PACE-CAM", "the read completed without an error and PACE succeeded, but the chip-authentication part of PACE-CAM left neither a result nor an error (faults %v)", c.Faults)
+				}
+			}
 			if b.aa && s.ActiveAuthResult == nil {
 				out.Violate("C11", "step-silently-skipped", "AA", "the read completed without an error, Active Authentication has neither a result nor an error recorded (faults %v)", c.Faults)
 			}
